@@ -55,6 +55,77 @@ def check_levels(ctx: Ctx):
     ctx.decide(okr, "LEVELS", site + ":range", fi, "vrng = vmax − vmin", "the intensity range is not vmax − vmin")
 
 
+def check_objective(ctx: Ctx):
+    """OBJECTIVE: the solver minimises the plain sum of squared residuals — no robust loss is
+    injected by the function itself (with loss ≠ 'linear' least_squares decreases ρ(residual²),
+    and the squared deviation of the result can exceed that of the start)."""
+    m = ctx.model
+    fi = m.func(refine.QUAL)
+    fv = view(m, fi)
+    site = refine.QUAL + ":objective"
+    ls = [c for c in fv.calls() if (fv.callee(c) or "").endswith("least_squares")]
+    if not ls:
+        ctx.undecided("OBJECTIVE", site, fi, "no least_squares call")
+        return
+    changing = {"loss", "f_scale"}
+    neutral = {"ftol", "xtol", "gtol", "max_nfev", "x_scale", "method", "jac", "verbose", "diff_step", "tr_solver", "tr_options", "jac_sparsity", "bounds"}
+    stars = set()
+    bad, unknown = [], []
+    for c in ls:
+        for k in c.keywords:
+            if k.arg is None:
+                stars.add(U(k.value))
+            elif k.arg in changing and not (isinstance(k.value, ast.Constant) and k.value.value in ("linear", 1.0, 1)):
+                bad.append((c, f"keyword {k.arg}={U(k.value)}"))
+            elif k.arg not in neutral | changing | {"args", "kwargs"}:
+                unknown.append((c, k.arg))
+    # keys written into the forwarded option dicts by this function
+    from ..astutil import const_strings
+
+    for n in fv.calls():
+        if isinstance(n.func, ast.Attribute) and isinstance(n.func.value, ast.Name) and n.func.value.id in stars and n.func.attr in ("setdefault", "update", "__setitem__"):
+            keys = set()
+            if n.func.attr == "update":
+                keys |= {k.arg for k in n.keywords if k.arg}
+                for a in n.args:
+                    if isinstance(a, ast.Dict):
+                        keys |= {k.value for k in a.keys if isinstance(k, ast.Constant)}
+                    else:
+                        unknown.append((n, U(a)))
+            elif n.args:
+                k0 = n.args[0]
+                if isinstance(k0, ast.Constant):
+                    keys.add(k0.value)
+                else:
+                    ex = fv.expand(k0, n, allow_mutated=True)
+                    lp = stmt_index(fv).enclosing(n, (ast.For,))
+                    if lp is not None and U(lp[0].target) == U(k0) and isinstance(lp[0].iter, (ast.List, ast.Tuple, ast.Set)):
+                        keys |= set(const_strings(lp[0].iter))
+                    elif isinstance(ex, ast.Constant):
+                        keys.add(ex.value)
+                    else:
+                        unknown.append((n, U(k0)))
+            for k in keys:
+                if k in changing:
+                    bad.append((n, f"default option {k!r}"))
+                elif k not in neutral:
+                    unknown.append((n, k))
+    for s in fv.statements():
+        if isinstance(s, ast.Assign) and isinstance(s.targets[0], ast.Subscript) and isinstance(s.targets[0].value, ast.Name) and s.targets[0].value.id in stars:
+            k0 = s.targets[0].slice
+            if isinstance(k0, ast.Constant) and k0.value in changing:
+                bad.append((s, f"option {k0.value!r}"))
+            elif not (isinstance(k0, ast.Constant) and k0.value in neutral):
+                unknown.append((s, U(k0)))
+    if bad:
+        ctx.violate("OBJECTIVE", site, (fi, bad[0][0]), f"refine_droplet itself sets the solver's {bad[0][1]}: least_squares then minimises a robust loss ρ(r²) instead of Σ r², "
+                    "so the refined droplet's squared deviation from the image can exceed the candidate's")
+    elif unknown:
+        ctx.undecided("OBJECTIVE", site, (fi, unknown[0][0]), f"solver option `{unknown[0][1]}` set by the function is not classified")
+    else:
+        ctx.hold("OBJECTIVE", site, (fi, ls[0]), f"{len(ls)} least_squares call(s) minimise the plain squared residual; the function only injects tolerance options")
+
+
 def check(ctx: Ctx):
     ctx.explain(
         "Rules over refine_droplet and the data_bounds chain: LAYOUT (bounds indices vs dtype offsets, exact linear forms in the "
@@ -67,6 +138,8 @@ def check(ctx: Ctx):
     refine.check_start(ctx)
     refine.check_pack(ctx, rules=("PACK", "MODEL", "AFFINE", "FEASIBLE"))
     check_levels(ctx)
+    check_objective(ctx)
+    ctx.expect("OBJECTIVE", 1)
     fi = m.func(refine.QUAL)
     nonetest.check(ctx, fi, "droplet.interface_width", "the candidate's interface width")
     ctx.analysed(fi)
